@@ -116,7 +116,9 @@ package document
 //@ ensures sdt.Content == old(sdt.Content) && sdt.Properties == old(sdt.Properties)
 //@ ensures forall c *SDTContent :: {c.Elements} allocated(c) && c != sdt.Content ==> c.Elements == old(c.Elements)
 //@ ensures forall p *any :: {deref(p)} allocated(p) && !(isElem(p) && arrOf(p) == old(arr(sdt.Content.Elements))) ==> deref(p) == old(deref(p))
+//@ ensures forall j int :: {sdt.Content.Elements[j]} 0 <= j && j < old(len(sdt.Content.Elements)) && old(tocPlaceholderIn(sdt.Content.Elements[j], sdt) && live(sdt.Content.Elements[j].(*SDT).Content) && arr(sdt.Content.Elements[j].(*SDT).Content.Elements) < allocBound()) ==> tocPlaceholderIn(sdt.Content.Elements[j], sdt) && live(sdt.Content.Elements[j].(*SDT).Content) && arr(sdt.Content.Elements[j].(*SDT).Content.Elements) < allocBound() && arr(sdt.Content.Elements[j].(*SDT).Content.Elements) == old(arr(sdt.Content.Elements[j].(*SDT).Content.Elements)) && tocPlaceholderText(sdt.Content.Elements[j]) == old(tocPlaceholderText(sdt.Content.Elements[j]))
 //@ ensures live(sdt.Content.Elements[old(len(sdt.Content.Elements))].(*SDT).Content) && sdt.Content.Elements[old(len(sdt.Content.Elements))].(*SDT).Content != sdt.Content
+//@ ensures tocPlaceholderIn(sdt.Content.Elements[old(len(sdt.Content.Elements))], sdt) && tocPlaceholderText(sdt.Content.Elements[old(len(sdt.Content.Elements))]) == text
 //@ ensures arr(sdt.Content.Elements[old(len(sdt.Content.Elements))].(*SDT).Content.Elements) != arr(sdt.Content.Elements) && arr(sdt.Content.Elements[old(len(sdt.Content.Elements))].(*SDT).Content.Elements) >= old(allocBound()) && arr(sdt.Content.Elements[old(len(sdt.Content.Elements))].(*SDT).Content.Elements) > 0 && arr(sdt.Content.Elements[old(len(sdt.Content.Elements))].(*SDT).Content.Elements) < allocBound()
 //@ ensures arr(sdt.Content.Elements) > 0 && arr(sdt.Content.Elements) < allocBound() && (arr(sdt.Content.Elements) == old(arr(sdt.Content.Elements)) || arr(sdt.Content.Elements) >= old(allocBound()))
 
@@ -132,6 +134,11 @@ package document
 //@ ensures arr(sdt.Content.Elements) > 0 && arr(sdt.Content.Elements) < allocBound() && (arr(sdt.Content.Elements) == old(arr(sdt.Content.Elements)) || arr(sdt.Content.Elements) >= old(allocBound()))
 //@ ensures forall c *SDTContent :: {c.Elements} allocated(c) && c != sdt.Content ==> c.Elements == old(c.Elements)
 //@ ensures forall p *any :: {deref(p)} allocated(p) && !(isElem(p) && arrOf(p) == old(arr(sdt.Content.Elements))) ==> deref(p) == old(deref(p))
+//@ ensures forall j int :: {sdt.Content.Elements[j]} 0 <= j && j < old(len(sdt.Content.Elements)) && old(tocPlaceholderIn(sdt.Content.Elements[j], sdt) && live(sdt.Content.Elements[j].(*SDT).Content) && arr(sdt.Content.Elements[j].(*SDT).Content.Elements) < allocBound()) ==> tocPlaceholderIn(sdt.Content.Elements[j], sdt) && live(sdt.Content.Elements[j].(*SDT).Content) && arr(sdt.Content.Elements[j].(*SDT).Content.Elements) < allocBound() && arr(sdt.Content.Elements[j].(*SDT).Content.Elements) == old(arr(sdt.Content.Elements[j].(*SDT).Content.Elements)) && tocPlaceholderText(sdt.Content.Elements[j]) == old(tocPlaceholderText(sdt.Content.Elements[j]))
+
+// tocFirstFrom(es, j): index of the first TOC control among es[j:], -1 when there is none; tocFirstFrom(es, 0) is
+// "the" TOC control UpdateTOC works on.
+//@ spec tocFirstFrom(es []any, j int) int = ite(j < 0 || j >= len(es), -1, ite(isTOCSDT(es[j]), j, tocFirstFrom(es, j + 1)))
 
 // findTOCSDT: the first TOC control of the body and its index, or (nil, -1) when there is none.
 //@ func (*Document).findTOCSDT
@@ -139,11 +146,13 @@ package document
 //@ requires d != nil && d.Body != nil && elemsOK(d.Body.Elements)
 //@ modifies nothing
 //@ ensures result0 == nil <==> result1 == -1
+//@ ensures result1 == tocFirstFrom(d.Body.Elements, 0)
 //@ ensures result0 == nil ==> forall q int :: 0 <= q && q < len(d.Body.Elements) ==> !isTOCSDT(d.Body.Elements[q])
 //@ ensures result0 != nil ==> 0 <= result1 && result1 < len(d.Body.Elements) && isTOCSDT(d.Body.Elements[result1]) && d.Body.Elements[result1].(*SDT) == result0 && (forall q int :: 0 <= q && q < result1 ==> !isTOCSDT(d.Body.Elements[q]))
 //@ loop 1
 //@   invariant 0 <= #i && #i <= len(d.Body.Elements) && unchangedHeap() && d != nil && d.Body != nil
 //@   invariant forall q int :: 0 <= q && q < #i ==> !isTOCSDT(d.Body.Elements[q])
+//@   invariant tocFirstFrom(d.Body.Elements, 0) == tocFirstFrom(d.Body.Elements, #i)
 //@   decreases len(d.Body.Elements) - #i
 
 // ---- GenerateTOC -------------------------------------------------------------------------------------------
@@ -151,6 +160,9 @@ package document
 // paragraph with the TOC style of the level.
 //@ spec tocPlaceholderShape(x any) bool = isSDT(x) && x.(*SDT).Content != nil && len(x.(*SDT).Content.Elements) == 1 && typeIs(x.(*SDT).Content.Elements[0], "Run")
 //@ spec tocPlaceholderText(x any) string = x.(*SDT).Content.Elements[0].(Run).Text.Content
+// tocPlaceholderIn(x, host): x is a placeholder control whose own content container and element array are not those of
+// the control `host` it is listed in (what AddTOCEntry creates); such an element survives later appends to host.
+//@ spec tocPlaceholderIn(x any, host *SDT) bool = tocPlaceholderShape(x) && x.(*SDT).Content != host.Content && arr(x.(*SDT).Content.Elements) != arr(host.Content.Elements) && arr(x.(*SDT).Content.Elements) > 0
 //@ spec tocEntryParaOK(x any, level int) bool = isPara(x) && x.(*Paragraph).Properties != nil && x.(*Paragraph).Properties.ParagraphStyle != nil && x.(*Paragraph).Properties.ParagraphStyle.Val == itoa(12 + tocEntryLevel(level))
 
 // GenerateTOC appends one new TOC control to the body (every earlier element stays). Its content is: bookmark
@@ -183,6 +195,111 @@ package document
 //@   invariant forall k int :: {entries[k]} 0 <= k && k < len(entries) ==> entries[k].Text == old(entries[k].Text) && entries[k].Level == old(entries[k].Level) && entries[k].PageNum == old(entries[k].PageNum)
 //@   invariant typeIs(tocSDT.Content.Elements[0], "*BookmarkStart") && tocTitleOK(tocSDT.Content.Elements[1], ite(old(config) == nil, "目录", old(config).Title))
 //@   invariant arr(tocSDT.Content.Elements[1].(*Paragraph).Runs) > 0 && arr(tocSDT.Content.Elements[1].(*Paragraph).Runs) < allocBound()
-//@   invariant forall k int :: {entries[k]} 0 <= k && k < #i ==> tocPlaceholderShape(tocSDT.Content.Elements[2 + 2 * k]) && tocPlaceholderText(tocSDT.Content.Elements[2 + 2 * k]) == entries[k].Text && live(tocSDT.Content.Elements[2 + 2 * k].(*SDT).Content) && tocSDT.Content.Elements[2 + 2 * k].(*SDT).Content != tocSDT.Content && arr(tocSDT.Content.Elements[2 + 2 * k].(*SDT).Content.Elements) != arr(tocSDT.Content.Elements) && arr(tocSDT.Content.Elements[2 + 2 * k].(*SDT).Content.Elements) >= old(allocBound()) && arr(tocSDT.Content.Elements[2 + 2 * k].(*SDT).Content.Elements) > 0 && arr(tocSDT.Content.Elements[2 + 2 * k].(*SDT).Content.Elements) < allocBound()
+//@   invariant forall k int :: {entries[k]} 0 <= k && k < #i ==> tocPlaceholderIn(tocSDT.Content.Elements[2 + 2 * k], tocSDT) && live(tocSDT.Content.Elements[2 + 2 * k].(*SDT).Content) && arr(tocSDT.Content.Elements[2 + 2 * k].(*SDT).Content.Elements) < allocBound() && arr(tocSDT.Content.Elements[2 + 2 * k].(*SDT).Content.Elements) >= old(allocBound()) && tocPlaceholderText(tocSDT.Content.Elements[2 + 2 * k]) == entries[k].Text
+//@   invariant forall k int :: {entries[k]} 0 <= k && k < #i ==> tocEntryParaOK(tocSDT.Content.Elements[3 + 2 * k], entries[k].Level)
+//@   decreases len(entries) - #i
+
+// ---- UpdateTOC ---------------------------------------------------------------------------------------------
+// Paragraph-style tables of contents (paragraphs whose style id starts with "TOC", as Word writes them).
+//@ spec isTOCPara(x any) bool = isPara(x) && x.(*Paragraph).Properties != nil && x.(*Paragraph).Properties.ParagraphStyle != nil && strings.HasPrefix(x.(*Paragraph).Properties.ParagraphStyle.Val, "TOC")
+
+//@ func (*Document).findTOCStart
+//@ props C15
+//@ requires d != nil && d.Body != nil && elemsOK(d.Body.Elements)
+//@ modifies nothing
+//@ ensures result == -1 ==> forall q int :: 0 <= q && q < len(d.Body.Elements) ==> !isTOCPara(d.Body.Elements[q])
+//@ ensures result != -1 ==> 0 <= result && result < len(d.Body.Elements) && isTOCPara(d.Body.Elements[result]) && (forall q int :: 0 <= q && q < result ==> !isTOCPara(d.Body.Elements[q]))
+//@ loop 1
+//@   invariant 0 <= #i && #i <= len(d.Body.Elements) && unchangedHeap() && d != nil && d.Body != nil
+//@   invariant forall q int :: 0 <= q && q < #i ==> !isTOCPara(d.Body.Elements[q])
+//@   decreases len(d.Body.Elements) - #i
+
+// removeTOCEntries(start) removes the maximal run of TOC-styled paragraphs that begins at `start` and nothing else:
+// every element before it and every element from the first non-TOC element on is kept, in order (before fix
+// 7f68a84 unstyled paragraphs and tables after the run were removed as well).
+//@ func (*Document).removeTOCEntries
+//@ props C15, C08
+//@ requires d != nil && d.Body != nil && elemsOK(d.Body.Elements) && 0 <= startIndex && startIndex <= len(d.Body.Elements)
+//@ ensures exists e int :: startIndex <= e && e <= old(len(d.Body.Elements)) && (forall q int :: startIndex <= q && q < e ==> old(isTOCPara(d.Body.Elements[q]))) && (e == old(len(d.Body.Elements)) || !old(isTOCPara(d.Body.Elements[e]))) && len(d.Body.Elements) == old(len(d.Body.Elements)) - (e - startIndex) && (forall j int :: 0 <= j && j < len(d.Body.Elements) ==> d.Body.Elements[j] == old(d.Body.Elements[ite(j < startIndex, j, j + (e - startIndex))]))
+//@ ensures unchangedExcept("Body.Elements", "cell:any")
+//@ ensures forall b *Body :: allocated(b) && b != d.Body ==> b.Elements == old(b.Elements)
+//@ ensures forall p *any :: {deref(p)} allocated(p) ==> deref(p) == old(deref(p))
+//@ loop 1
+//@   invariant startIndex <= i && i <= len(d.Body.Elements) && unchangedHeap() && d != nil && d.Body != nil
+//@   invariant len(newElements) == startIndex && (cap(newElements) == 0 || arr(newElements) >= old(allocBound()))
+//@   invariant forall j int :: 0 <= j && j < startIndex ==> newElements[j] == old(d.Body.Elements[j])
+//@   invariant forall q int :: startIndex <= q && q < i ==> old(isTOCPara(d.Body.Elements[q]))
+//@   decreases len(d.Body.Elements) - i
+
+// addTOCEntry (paragraph-style TOC): one new paragraph at the end of the body, styled "TOC<level>", whose first run
+// is the entry text. (C13: the ids TOC1..TOC9 are not defined by the library's own style registry - they are the ids
+// Word uses, and this path only runs on a document that already has a paragraph with such an id; see the report.)
+//@ func (*Document).addTOCEntry
+//@ props C15
+//@ requires d != nil && d.Body != nil && config != nil
+//@ ensures result == nil
+//@ ensures len(d.Body.Elements) == old(len(d.Body.Elements)) + 1
+//@ ensures forall j int :: 0 <= j && j < old(len(d.Body.Elements)) ==> d.Body.Elements[j] == old(d.Body.Elements[j])
+//@ ensures isPara(d.Body.Elements[old(len(d.Body.Elements))]) && fresh(d.Body.Elements[old(len(d.Body.Elements))].(*Paragraph))
+//@ ensures d.Body.Elements[old(len(d.Body.Elements))].(*Paragraph).Properties != nil && d.Body.Elements[old(len(d.Body.Elements))].(*Paragraph).Properties.ParagraphStyle != nil && d.Body.Elements[old(len(d.Body.Elements))].(*Paragraph).Properties.ParagraphStyle.Val == sprintf("TOC%d", entry.Level)
+//@ ensures len(d.Body.Elements[old(len(d.Body.Elements))].(*Paragraph).Runs) == ite(config.ShowPageNum, 2, 1) && d.Body.Elements[old(len(d.Body.Elements))].(*Paragraph).Runs[0].Text.Content == entry.Text
+//@ ensures unchangedExcept("Body.Elements", "cell:any")
+
+// UpdateTOC.
+// tocSDTsOK: every TOC control of the body has a content container (the library's builders always create one; the
+// reader never produces content controls).
+//@ spec tocSDTsOK(es []any) bool = forall q int :: {es[q]} 0 <= q && q < len(es) && isTOCSDT(es[q]) ==> es[q].(*SDT).Content != nil
+//@ spec firstTOCSDTAt(es []any, p int) bool = 0 <= p && p < len(es) && isTOCSDT(es[p]) && (forall q int :: 0 <= q && q < p ==> !isTOCSDT(es[q]))
+//@ spec noTOCSDT(es []any) bool = forall q int :: 0 <= q && q < len(es) ==> !isTOCSDT(es[q])
+//@ spec noTOCPara(es []any) bool = forall q int :: 0 <= q && q < len(es) ==> !isTOCPara(es[q])
+//
+// The clauses name the control through the ground term tocFirstFrom(body, 0) (what findTOCSDT returns) rather than
+// through a quantified "first index p": with the index quantified the solvers needed 25-55 s per clause to
+// re-derive p == tocIndex from an instantiation, with the ground term every clause is decided in about 3 s.
+// (a) no TOC of either kind: an error, nothing is modified.
+// (b) a TOC control exists: the FIRST one is rebuilt in place from the headings up to level 3 (the default
+//     configuration) - it stays the same object at the same body index, no body element is added, removed or moved,
+//     no other content control is touched, and its new content is exactly what GenerateTOC(nil) would build: bookmark
+//     start, title, two elements per heading in body order, bookmark end. Running it again therefore rebuilds the
+//     same shape from the same headings (the body cells and every paragraph are unchanged by the call): idempotence.
+//     FINDING (reported, not repaired): the level and title the TOC was generated with are not remembered -
+//     GenerateTOC(&TOCConfig{MaxLevel: 5, Title: "My"}) followed by UpdateTOC() drops the level-4/5 entries and
+//     resets the title.
+// (c) only a paragraph-style TOC exists: the old entries are removed (removeTOCEntries) and one paragraph per heading
+//     is appended at the END of the body (addTOCEntry); only err == nil and absence of panics are stated for this
+//     path, because telling "TOC..." ids from heading ids needs the semantics of strings.HasPrefix/ToLower.
+//@ func (*Document).UpdateTOC
+//@ props C15
+//@ requires d != nil && d.Body != nil && elemsOK(d.Body.Elements) && tocSDTsOK(d.Body.Elements)
+//@ ensures old(tocFirstFrom(d.Body.Elements, 0)) < 0 && old(noTOCPara(d.Body.Elements)) ==> result != nil && unchangedHeap()
+//@ ensures old(tocFirstFrom(d.Body.Elements, 0)) >= 0 || !old(noTOCPara(d.Body.Elements)) ==> result == nil
+//@ ensures old(tocFirstFrom(d.Body.Elements, 0)) >= 0 ==> len(d.Body.Elements) == old(len(d.Body.Elements)) && d.Body.Elements == old(d.Body.Elements)
+//@ ensures old(tocFirstFrom(d.Body.Elements, 0)) >= 0 ==> forall j int :: 0 <= j && j < len(d.Body.Elements) && j != old(tocFirstFrom(d.Body.Elements, 0)) ==> d.Body.Elements[j] == old(d.Body.Elements[j])
+//@ ensures old(tocFirstFrom(d.Body.Elements, 0)) >= 0 ==> isTOCSDT(d.Body.Elements[old(tocFirstFrom(d.Body.Elements, 0))]) && d.Body.Elements[old(tocFirstFrom(d.Body.Elements, 0))].(*SDT) == old(d.Body.Elements[tocFirstFrom(d.Body.Elements, 0)].(*SDT)) && d.Body.Elements[old(tocFirstFrom(d.Body.Elements, 0))].(*SDT).Content == old(d.Body.Elements[old(tocFirstFrom(d.Body.Elements, 0))].(*SDT).Content)
+//@ ensures old(tocFirstFrom(d.Body.Elements, 0)) >= 0 ==> len(old(d.Body.Elements[tocFirstFrom(d.Body.Elements, 0)].(*SDT)).Content.Elements) == 3 + 2 * old(tocCount(d.Body.Elements, len(d.Body.Elements), 3))
+//@ ensures old(tocFirstFrom(d.Body.Elements, 0)) >= 0 ==> typeIs(old(d.Body.Elements[tocFirstFrom(d.Body.Elements, 0)].(*SDT)).Content.Elements[0], "*BookmarkStart") && tocTitleOK(old(d.Body.Elements[tocFirstFrom(d.Body.Elements, 0)].(*SDT)).Content.Elements[1], "目录") && typeIs(old(d.Body.Elements[tocFirstFrom(d.Body.Elements, 0)].(*SDT)).Content.Elements[2 + 2 * old(tocCount(d.Body.Elements, len(d.Body.Elements), 3))], "*BookmarkEnd")
+//@ ensures old(tocFirstFrom(d.Body.Elements, 0)) >= 0 ==> forall j int :: 0 <= j && j < old(len(d.Body.Elements)) && old(tocIsEntry(d.Body.Elements[j], 3)) ==> isSDT(old(d.Body.Elements[tocFirstFrom(d.Body.Elements, 0)].(*SDT)).Content.Elements[2 + 2 * old(tocCount(d.Body.Elements, j, 3))]) && old(d.Body.Elements[tocFirstFrom(d.Body.Elements, 0)].(*SDT)).Content.Elements[2 + 2 * old(tocCount(d.Body.Elements, j, 3))].(*SDT).Content != nil
+//@ ensures old(tocFirstFrom(d.Body.Elements, 0)) >= 0 ==> forall j int :: 0 <= j && j < old(len(d.Body.Elements)) && old(tocIsEntry(d.Body.Elements[j], 3)) ==> len(old(d.Body.Elements[tocFirstFrom(d.Body.Elements, 0)].(*SDT)).Content.Elements[2 + 2 * old(tocCount(d.Body.Elements, j, 3))].(*SDT).Content.Elements) == 1
+//@ ensures old(tocFirstFrom(d.Body.Elements, 0)) >= 0 ==> forall j int :: 0 <= j && j < old(len(d.Body.Elements)) && old(tocIsEntry(d.Body.Elements[j], 3)) ==> typeIs(old(d.Body.Elements[tocFirstFrom(d.Body.Elements, 0)].(*SDT)).Content.Elements[2 + 2 * old(tocCount(d.Body.Elements, j, 3))].(*SDT).Content.Elements[0], "Run")
+//@ ensures old(tocFirstFrom(d.Body.Elements, 0)) >= 0 ==> forall j int :: 0 <= j && j < old(len(d.Body.Elements)) && old(tocIsEntry(d.Body.Elements[j], 3)) ==> tocPlaceholderText(old(d.Body.Elements[tocFirstFrom(d.Body.Elements, 0)].(*SDT)).Content.Elements[2 + 2 * old(tocCount(d.Body.Elements, j, 3))]) == old(tocText(d.Body.Elements[j].(*Paragraph)))
+//@ ensures old(tocFirstFrom(d.Body.Elements, 0)) >= 0 ==> forall j int :: 0 <= j && j < old(len(d.Body.Elements)) && old(tocIsEntry(d.Body.Elements[j], 3)) ==> tocEntryParaOK(old(d.Body.Elements[tocFirstFrom(d.Body.Elements, 0)].(*SDT)).Content.Elements[3 + 2 * old(tocCount(d.Body.Elements, j, 3))], old(tocLevel(d.Body.Elements[j].(*Paragraph))))
+//@ ensures old(tocFirstFrom(d.Body.Elements, 0)) >= 0 ==> unchangedExcept("SDTContent.Elements", "cell:any")
+//@ ensures old(tocFirstFrom(d.Body.Elements, 0)) >= 0 ==> forall c *SDTContent :: allocated(c) && c != old(d.Body.Elements[tocFirstFrom(d.Body.Elements, 0)].(*SDT).Content) ==> c.Elements == old(c.Elements)
+//@ loop 1
+//@   invariant 0 <= #i && #i <= len(entries) && d != nil && d.Body != nil && config != nil
+//@   decreases len(entries) - #i
+//@ loop 2
+//@   invariant 0 <= #i && #i <= len(entries) && d != nil && d.Body != nil && unchangedExcept("SDTContent.Elements", "cell:any")
+//@   invariant tocIndex == old(tocFirstFrom(d.Body.Elements, 0)) && 0 <= tocIndex && tocIndex < old(len(d.Body.Elements)) && old(isTOCSDT(d.Body.Elements[tocIndex])) && tocSDT != nil && tocSDT == old(d.Body.Elements[tocIndex].(*SDT)) && tocSDT.Content != nil && tocSDT.Content == old(d.Body.Elements[tocIndex].(*SDT).Content) && tocGallery(tocSDT)
+//@   invariant d.Body.Elements == old(d.Body.Elements)
+//@   invariant forall c *SDTContent :: {c.Elements} allocated(c) && c != tocSDT.Content ==> c.Elements == old(c.Elements)
+//@   invariant forall j int :: {d.Body.Elements[j]} 0 <= j && j < len(d.Body.Elements) ==> d.Body.Elements[j] == old(d.Body.Elements[j])
+//@   invariant len(tocSDT.Content.Elements) == 2 + 2 * #i && arr(tocSDT.Content.Elements) > 0 && arr(tocSDT.Content.Elements) >= old(allocBound()) && arr(tocSDT.Content.Elements) < allocBound()
+//@   invariant cap(entries) == 0 || (arr(entries) >= old(allocBound()) && arr(entries) < allocBound())
+//@   invariant len(entries) == old(tocCount(d.Body.Elements, len(d.Body.Elements), 3))
+//@   invariant forall j int :: {old(d.Body.Elements[j])} 0 <= j && j < old(len(d.Body.Elements)) && old(tocIsEntry(d.Body.Elements[j], 3)) ==> 0 <= old(tocCount(d.Body.Elements, j, 3)) && old(tocCount(d.Body.Elements, j, 3)) < len(entries) && entries[old(tocCount(d.Body.Elements, j, 3))].Text == old(tocText(d.Body.Elements[j].(*Paragraph))) && entries[old(tocCount(d.Body.Elements, j, 3))].Level == old(tocLevel(d.Body.Elements[j].(*Paragraph)))
+//@   invariant typeIs(tocSDT.Content.Elements[0], "*BookmarkStart") && tocTitleOK(tocSDT.Content.Elements[1], "目录")
+//@   invariant arr(tocSDT.Content.Elements[1].(*Paragraph).Runs) > 0 && arr(tocSDT.Content.Elements[1].(*Paragraph).Runs) < allocBound() && fresh(tocSDT.Content.Elements[1].(*Paragraph))
+//@   invariant forall k int :: {entries[k]} 0 <= k && k < #i ==> tocPlaceholderIn(tocSDT.Content.Elements[2 + 2 * k], tocSDT) && live(tocSDT.Content.Elements[2 + 2 * k].(*SDT).Content) && arr(tocSDT.Content.Elements[2 + 2 * k].(*SDT).Content.Elements) < allocBound() && arr(tocSDT.Content.Elements[2 + 2 * k].(*SDT).Content.Elements) >= old(allocBound()) && tocPlaceholderText(tocSDT.Content.Elements[2 + 2 * k]) == entries[k].Text
 //@   invariant forall k int :: {entries[k]} 0 <= k && k < #i ==> tocEntryParaOK(tocSDT.Content.Elements[3 + 2 * k], entries[k].Level)
 //@   decreases len(entries) - #i
